@@ -1195,9 +1195,15 @@ package validate
 //@ func Spec
 //@   requires[C07] doc != nil
 //@   modifies *
+// defaultOpts is shared by every goroutine: it is written by SetContinueOnErrors under defaultOptsMutex, so every
+// access needs the mutex (obligation class `guarded`, C05)
+//@ guarded defaultOpts by defaultOptsMutex
+//@ func SetContinueOnErrors
+//@   modifies *
+//@   ensures[C05] !held(defaultOptsMutex)
 //@ func NewSpecValidator
 //@   modifies *
-//@   ensures[C07] result != nil && result.schemaOptions != nil && fresh(result)
+//@   ensures[C07,C05] result != nil && result.schemaOptions != nil && fresh(result)
 //@ func (*SpecValidator).Validate
 //@   maypanic
 //@   requires[C07] s != nil && s.schemaOptions != nil
